@@ -1,5 +1,6 @@
 import Drivers.Wire
 import Model.Evaluator
+import Model.EvaluatorTrace
 
 /-!
 Driver for C01 (stateful, one session at a time; `init` starts a new evaluator).
@@ -13,6 +14,10 @@ requests
   {"op":"gather","all":bool,"k":n,"started":[id..],"waits":[[id..]..]}
   {"op":"close","finished":[id..]}
   {"op":"dump","flush":bool}
+  {"op":"check","hpo":bool,"trace":[{"call":{"op":..},"res":{"kind":..},"num_submitted":n,"num_gathered":n,
+                                      "jobs_done":[job..]}..]}
+        -> {"ok":true,"spec":bool,"first_bad":i|null,"clause":str|null}    (`checkTrace`, theorem C01_checker,
+           evaluated on the trace observed on the REAL evaluator; `clause` names the first failing conjunct)
 reply
   {"ok":true,"env_ok":bool,"out":{"kind":..,"jobs":[..],"err":..},
    "num_submitted":n,"num_gathered":n,"jobs_done":[id..],"statuses":[..],"other":[id..]}
@@ -78,12 +83,100 @@ def parseOp (j : Json) : Except String (Op Cfg) := do
   | "dump" => return .dump (← jBool (← field j "flush"))
   | _ => throw s!"unknown op {op}"
 
+/-! ### the verified checker on an observed trace -/
+
+def jStatus (j : Json) : Except String Status := do
+  match (← j.getStr?) with
+  | "READY" => pure .ready | "RUNNING" => pure .running | "DONE" => pure .done
+  | "CANCELLED" => pure .cancelled
+  | "CANCELLING" => pure .running   -- only with timeouts (outside C01); never DONE/CANCELLED
+  | s => throw s!"bad status {s}"
+
+def jOutV (j : Json) : Except String (Option OutV) :=
+  match j with
+  | .null => pure none
+  | _ => do
+    let t ← jStr (← field j "t")
+    match t with
+    | "num" => return some (.obj (← jRat (← field j "v")))
+    | "str" => return some (.fstr (← jStr (← field j "v")))
+    | _ => return some (.fstr ("<" ++ t ++ ">"))   -- neither a float nor a string: never what `runF` returns
+
+def jJob (j : Json) : Except String (JobRec Cfg OutV) := do
+  return { id := ← jNat (← field j "id"), cfg := ← jCfg j, out := ← jOutV (← field j "out"),
+           status := ← jStatus (← field j "status") }
+
+def jTStep (j : Json) : Except String (TStep Cfg OutV) := do
+  let c ← field j "call"
+  let op ← match (← jStr (← field c "op")) with
+    | "submit" => pure (TOp.submit (← jList jCfg (← field c "cfgs")))
+    | "gather" => pure (TOp.gather (← jBool (← field c "all")) (← jNat (← field c "k")))
+    | "close" => pure TOp.close
+    | "dump" => pure TOp.dump
+    | o => throw s!"bad call {o}"
+  let r ← field j "res"
+  let res ← match (← jStr (← field r "kind")) with
+    | "unit" => pure TRes.unit
+    | "jobs" => pure (TRes.jobs (← jList jJob (← field r "jobs")))
+    | "rows" => pure (TRes.rows (← jList jNat (← field r "ids")))
+    | "error" => match (← jStr (← field r "err")) with
+      | "noLoop" => pure (TRes.error .noLoop)
+      | "noJobs" => pure (TRes.error .noJobs)
+      | _ => pure (TRes.error .other)
+    | _ => pure (TRes.error .other)
+  return { op, res, numSubmitted := ← jNat (← field j "num_submitted"), numGathered := ← jNat (← field j "num_gathered"),
+           jobsDone := ← jList jJob (← field j "jobs_done") }
+
+/-- which conjunct of `StepOk` fails first (a reporting aid; the verdict is `checkTrace`) -/
+def diagnose (p : Params Cfg OutV) (a : Acc Cfg) (st : TStep Cfg OutV) : String :=
+  let counters :=
+    if st.numSubmitted != (nextAcc a st).cfgs.length then "count-submitted"
+    else if st.numGathered != (nextAcc a st).delivered.length then "count-gathered" else "?"
+  match st.op, st.res with
+  | _, .error .other => "no-exception"
+  | .submit _, .unit => if decide (CallOk p a st) then counters else "jobs-done"
+  | .gather all k, .jobs js =>
+    if !decide (js.map (·.id)).Nodup || js.any (fun j => (a.delivered.map (·.1)).contains j.id) then "twice"
+    else if js.any (fun j => a.cfgs[j.id]? == none) then "unknown-job"
+    else if js.any (fun j => a.cfgs[j.id]? != some j.cfg) then "payload-config"
+    else if js.any (fun j => j.out != some (p.f j.cfg)) then "payload-output"
+    else if js.any (fun j => j.status != .done) then "payload-status"
+    else if !decide (min (if all then a.inflight else k) a.inflight ≤ js.length) then "batch-size"
+    else if all && js.length != a.inflight then "all-leaves-running"
+    else if !decide (CallOk p a st) then "jobs-done"
+    else counters
+  | .gather _ _, .error _ => if decide (CallOk p a st) then counters else "no-exception"
+  | .close, .unit =>
+    let new := st.jobsDone.drop a.pending.length
+    if !decide (new.map (·.id)).Nodup || new.any (fun j => (a.delivered.map (·.1)).contains j.id) then "both"
+    else if new.any (fun j => a.cfgs[j.id]? == none) then "unknown-job"
+    else if new.any (fun j => a.cfgs[j.id]? != some j.cfg) then "payload-config"
+    else if new.any (fun j => !decide (ClosedOk p a j)) then "close-record"
+    else if new.length != a.inflight then "lost"
+    else if !decide (CallOk p a st) then "jobs-done"
+    else counters
+  | .dump, .rows _ => if decide (CallOk p a st) then counters else "dump-once"
+  | _, _ => "no-exception"
+
+def handleCheck (j : Json) : Except String Json := do
+  let hpo ← jBool (← field j "hpo")
+  let t ← jList jTStep (← field j "trace")
+  let p := mkParams hpo
+  let spec := checkTrace p t
+  match firstBad p Acc.init 0 t with
+  | none => return Json.mkObj [("ok", true), ("spec", spec), ("first_bad", Json.null), ("clause", Json.null)]
+  | some (i, a, st) =>
+    return Json.mkObj [("ok", true), ("spec", spec), ("first_bad", Json.num (JsonNumber.fromNat i)),
+      ("clause", diagnose p a st)]
+
 def handle (s : Option Sess) (j : Json) : Except String (Option Sess × Json) := do
   let op ← (← field j "op").getStr?
   if op == "init" then
     let hpo ← jBool (← field j "hpo")
     let pre ← jBool (fieldD j "pre" (Json.bool false))
     return (some { hpo, pre, ev := init }, Json.mkObj [("ok", true)])
+  if op == "check" then
+    return (s, ← handleCheck j)
   match s with
   | none => throw "no session: send init first"
   | some se =>
